@@ -1,7 +1,6 @@
 import TxdbusModel.Proto.FdsMsg
 import TxdbusModel.Proofs.Proto.FdsSender
-import TxdbusModel.Proofs.Proto.Frames
-import TxdbusModel.Proofs.Msg.WithWire
+import TxdbusModel.Proofs.Proto.WithMsg
 import TxdbusModel.Proofs.Wire.SpecRoundtrip
 /-
 C20 composed with C03 (and C01 through it): lemmas behind `info_of_constructed` and `descriptors_end_to_end`
@@ -14,9 +13,9 @@ C20 composed with C03 (and C01 through it): lemmas behind `info_of_constructed` 
     holds the message's descriptors followed by early arrivals, is as good as the sender's list);
   * `parse_noBody_constructed`, `info_core`: C03's `parse_marshal` with a codec that leaves the body alone, the
     body bytes decoded by C01's specification decoder (`Spec.decodeAll_encodeAll`).
-C03's proof files (Proofs/Msg, Proofs/Wire) and C04's Proofs/Proto/Frames.lean are imported read-only.
+C03's proof files (Proofs/Msg, Proofs/Wire) and C04's Proofs/Proto/WithMsg.lean are imported read-only.
 -/
-namespace Txdbus.Proto
+namespace Txdbus.Proto.FdsE2E
 open Txdbus.Code
 open Txdbus.Msg (Tables BodyCodec Call construct parseMessage wireCodec)
 
@@ -547,9 +546,8 @@ theorem info_of_sent (T : Tables) (hT : T.OK) (na : Char → Bool) (maxLen fuel 
     · rw [info_of_constructed_none_gen T hT na maxLen st st' c x.msg hs x.ts pv x.items x.vs lall bs fuel hsig hne
         hbody hoob hts hitems hrep henc hfuel hc, hds]; rfl
 
-/-- C03's layout is C04's `Spec.WellFormed` (as `WithMsg.wellFormed_of_constructed_gen` of C04's extension, from
-C03 `marshal_wellformed` and C04 `wellFormed_of_layout`; repeated here so that C20 does not depend on files
-another extension is editing). -/
+/-- C03's layout is C04's `Spec.WellFormed`: C04's `WithMsg.wellFormed_of_constructed_gen` (C03 `marshal_wellformed` +
+C04 `wellFormed_of_layout`) for a sent message. -/
 theorem wellFormed_of_sentFd (T : Tables) (hT : T.OK) (na : Char → Bool) (maxLen fuel : Nat)
     (hmax : maxLen ≤ Msg.Spec.maxMessage) (x : SentFd) (h : SentFdOK T na maxLen fuel x) :
     Spec.WellFormed x.msg.raw := by
@@ -559,16 +557,7 @@ theorem wellFormed_of_sentFd (T : Tables) (hT : T.OK) (na : Char → Bool) (maxL
     rcases hcase with ⟨hsig, _⟩ | ⟨_, _, hsig, _⟩
     · exact Or.inl hsig
     · exact Or.inr hsig
-  obtain ⟨sm, _, hraw, hhdr, hpad, hfix, hal, hpl, _, hfixed, _, hbl, hal32, _⟩ :=
-    Msg.Main.marshal_wellformed T hT (wireCodec fuel) na maxLen hmax st st' c x.msg hs hsig hc
-  have hal' : (16 + (Msg.Spec.fieldArray sm).length + (Msg.Spec.headerPad sm).length) % 8 = 0 := by
-    rw [hhdr, hpad] at hal
-    simp only [List.length_append, hfix] at hal
-    exact hal
-  rw [hpad] at hpl
-  rw [hraw, hfixed]
-  exact wellFormed_of_layout _ _ x.msg.serial (Msg.Spec.fieldArray sm) (Msg.Spec.headerPad sm) x.msg.rawBody hpl hal'
-    hbl hal32
+  exact WithMsg.wellFormed_of_constructed_gen T hT (wireCodec fuel) na maxLen hmax st st' c x.msg hs hsig hc
 
 /-! ### C03's parse with C01's codec on the receiver's real queue -/
 
@@ -622,11 +611,64 @@ theorem parsedAs_of_sent (T : Tables) (hT : T.OK) (na : Char → Bool) (maxLen f
       exact key _ false _ _ hm hrep (fun i _ h => absurd h (Nat.not_lt_zero i))
 
 
+/-- `self.unix_fds` of a sent message: the number of descriptors attached, the attribute absent when there are none. -/
+theorem sent_unixFds (T : Tables) (hT : T.OK) (na : Char → Bool) (maxLen fuel : Nat) (x : SentFd)
+    (h : SentFdOK T na maxLen fuel x) :
+    x.msg.attrs .unixFds = if x.ds.isEmpty then PyVal.none else PyVal.int .plain (x.ds.length : Nat) := by
+  obtain ⟨st, st', c, hs, hc, hcase⟩ := h
+  rcases hcase with ⟨hsig, _, hds, _, _, _⟩ | ⟨pv, bs, hsig, hne, hbody, hts, hitems, _, henc, hfuel, hoob⟩
+  · obtain ⟨sm, hb⟩ := Msg.construct_ok T hT (wireCodec fuel) na maxLen st st' c x.msg hc
+    have hps : c.pre.attrs .signature = Msg.strAttr c.signature := Msg.Main.pre_signature c
+    rw [hds]
+    rcases hb.bodyCase with ⟨_, _, hu⟩ | ⟨sg', fds', hs1, hne', _, _⟩
+    · exact hu
+    · rw [hps] at hs1
+      rcases hsig with h0 | h0 <;> rw [h0] at hs1
+      · cases hs1
+      · simp only [Msg.strAttr, PyVal.str.injEq, true_and] at hs1; exact absurd hs1.symm hne'
+  · rcases hoob with ⟨hoob, hrep⟩ | ⟨hoob, hds, lall, hrep⟩
+    · have hm : Code.marshal fuel (renderAll x.ts) pv 0 true c.oob = .ok (bs.length, bs, some (x.ds.map fdVal)) := by
+        have h' := Code.marshal_eq_spec Code.genAlign Code.padOK_gen Code.genAlign_pos true x.ts pv x.items x.vs
+          (x.ds.map fdVal) x.ds.length 0 bs fuel hitems hrep henc hfuel
+        rw [hoob, h', List.take_of_length_le (by simp)]
+      rw [(constructed_body_facts T hT na maxLen st st' c x.msg fuel (renderAll x.ts) pv bs _ hsig hne hbody hm hc).2]
+      cases hd : x.ds with
+      | nil => rfl
+      | cons d t => simp [ufdAttr]
+    · have hm : Code.marshal fuel (renderAll x.ts) pv 0 true c.oob = .ok (bs.length, bs, none) := by
+        rw [hoob]
+        exact Msg.marshal_eq_spec_none true x.ts pv x.items x.vs lall 0 0 0 bs fuel hitems hrep henc hfuel
+      rw [(constructed_body_facts T hT na maxLen st st' c x.msg fuel (renderAll x.ts) pv bs _ hsig hne hbody hm hc).2, hds]
+      rfl
+
+/-- **C04's model of `rawDBusMessageReceived`** (`Receive.handleFrame`, Proto/Receive.lean: `parseMessage(raw,
+self._receivedFDs)`, then `self._receivedFDs[m.unix_fds:]` when the attribute exists, then the hook of the message
+type) on a queue that starts with the message's own descriptors: it returns the message that was sent and leaves
+exactly what follows those descriptors - what `deliver` with `infoOfParse` computes. -/
+theorem handleFrame_sent (T : Tables) (hT : T.OK) (na : Char → Bool) (maxLen fuel : Nat) (x : SentFd)
+    (h : SentFdOK T na maxLen fuel x) (rest : List Nat) :
+    ∃ m', parseMessage T (wireCodec fuel) x.msg.raw (some ((x.ds ++ rest).map fdVal)) = .ok m' ∧
+      Receive.handleFrame T (wireCodec fuel) ((x.ds ++ rest).map fdVal) x.msg.raw =
+        .ok (Receive.hookOfType (T.messageType m'.cls), m', rest.map fdVal) := by
+  obtain ⟨m', hp, _, _, _, _, hattrs, _⟩ := parsedAs_of_sent T hT na maxLen fuel x h rest
+  refine ⟨m', hp, ?_⟩
+  have hu := sent_unixFds T hT na maxLen fuel x h
+  simp only [Receive.handleFrame, hp, hattrs .unixFds, hu]
+  cases hd : x.ds with
+  | nil => simp [Msg.plain, Receive.fdsAfter]
+  | cons d t =>
+    have : (PyVal.int IntCls.plain ((d :: t).length : Nat)) = PyVal.int IntCls.plain (((d :: t).length : Nat) : Int) := rfl
+    simp [Msg.plain, Receive.fdsAfter, Receive.sliceFrom]
+    omega
+
 /-- `ds` are the deliveries of the first messages of `xs`, in order: each carries the bytes of its message;
 every `h` argument resolved to the descriptor attached to THIS message at that position (`args`); the queue at
 that moment was the message's own descriptors followed by early arrivals of later messages, and exactly the
-message's own descriptors were removed; and C03's `parseMessage` with C01's codec, run on that very queue
-(`parsedDelivery` - the code's call), returns the message that was sent, the descriptors in its body. -/
+message's own descriptors were removed; C03's `parseMessage` with C01's codec, run on that very queue
+(`parsedDelivery` - the code's call), returns the message that was sent, the descriptors in its body; and C04's model
+of the whole of `rawDBusMessageReceived` (`Receive.handleFrame`: that parse, then `self._receivedFDs[m.unix_fds:]`,
+then the hook of the message type) on that queue hands that message to the hook of its type and leaves exactly
+`queueAfter`. -/
 def ParsedFrom (T : Tables) (fuel : Nat) : List SentFd → List Delivery → Prop
   | _, [] => True
   | [], _ :: _ => False
@@ -634,6 +676,9 @@ def ParsedFrom (T : Tables) (fuel : Nat) : List SentFd → List Delivery → Pro
     d.raw = x.msg.raw ∧ d.args = x.ds.map some ∧
     (∃ early, d.queueBefore = x.ds ++ early ∧ d.queueAfter = early ∧ early <+: (t.map (·.ds)).flatten) ∧
     ParsedAs x (parsedDelivery T fuel d) ∧
+    (∃ m', parsedDelivery T fuel d = .ok m' ∧
+      Receive.handleFrame T (wireCodec fuel) (d.queueBefore.map fdVal) d.raw =
+        .ok (Receive.hookOfType (T.messageType m'.cls), m', d.queueAfter.map fdVal)) ∧
     ParsedFrom T fuel t ds
 
 theorem parsedFrom_of_goodFrom (T : Tables) (hT : T.OK) (na : Char → Bool) (maxLen fuel : Nat) :
@@ -650,7 +695,7 @@ theorem parsedFrom_of_goodFrom (T : Tables) (hT : T.OK) (na : Char → Bool) (ma
       apply List.map_congr_left
       intro y hy
       exact (toMsg_fds T na maxLen fuel y (hx y (by simp [hy]))).2.1
-    refine ⟨by rw [h1, e1], ?_, ⟨early, by rw [h3, e2], h4, by rw [← hfl]; exact h5⟩, ?_,
+    refine ⟨by rw [h1, e1], ?_, ⟨early, by rw [h3, e2], h4, by rw [← hfl]; exact h5⟩, ?_, ?_,
       parsedFrom_of_goodFrom T hT na maxLen fuel t ds (fun y hy => hx y (by simp [hy])) h6⟩
     · rw [h2, e2, e3]
       apply List.ext_getElem?
@@ -662,6 +707,10 @@ theorem parsedFrom_of_goodFrom (T : Tables) (hT : T.OK) (na : Char → Bool) (ma
     · have := parsedAs_of_sent T hT na maxLen fuel x (hx x (by simp)) early
       simp only [parsedDelivery, h1, e1, h3, e2]
       exact this
+    · obtain ⟨m', hp, hh⟩ := handleFrame_sent T hT na maxLen fuel x (hx x (by simp)) early
+      refine ⟨m', ?_, ?_⟩
+      · simp only [parsedDelivery, h1, e1, h3, e2]; exact hp
+      · rw [h1, e1, h3, e2, h4]; exact hh
 
 /-- In terms of the descriptors alone. -/
 theorem parsedFrom_args (T : Tables) (fuel : Nat) :
@@ -672,7 +721,7 @@ theorem parsedFrom_args (T : Tables) (fuel : Nat) :
   | x :: t, d :: ds, h => by
     simp only [ParsedFrom] at h
     simp only [List.map_cons, List.length_cons, List.take_succ_cons, h.1, h.2.1,
-      parsedFrom_args T fuel t ds h.2.2.2.2]
+      parsedFrom_args T fuel t ds h.2.2.2.2.2]
 
 /-! ### Everything that was sent has arrived -/
 
@@ -739,4 +788,4 @@ theorem exFd_rep : Code.RepFields ([7, 7].map fdVal) [.int 0, .int 1] true [.bas
 /-- An authenticator for the instances (never consulted in binary mode). -/
 def idleAuth : Auth Unit := ⟨fun _ _ => ((), .cont)⟩
 
-end Txdbus.Proto
+end Txdbus.Proto.FdsE2E
